@@ -97,7 +97,11 @@ pub fn eval(c: &ValidCase) -> Outcome {
             prev = Some(loc);
         }
     }
-    let reord = v.iter().any(|s| s.pts != s.dts);
+    // frame reordering = the presentation order differs from the decode order.  A constant decoder delay (pts = dts + c for
+    // every frame) is not reordering; there the merge may be by decode or by presentation time (the statement says "by
+    // timestamp"): either is accepted
+    let reord = v.windows(2).any(|w| w[1].pts < w[0].pts);
+    let delayed = !reord && v.iter().any(|s| s.pts != s.dts);
     let ties = v.iter().chain(a.iter()).any(|s| s.tie);
     if !reord && !ties && !a.is_empty() {
         let mut by_loc = locs.clone();
@@ -105,7 +109,16 @@ pub fn eval(c: &ValidCase) -> Outcome {
         let mut by_time = locs.clone();
         by_time.sort_by_key(|&(_, isv, i, tick)| (tick, !isv, i));
         let seq_loc: Vec<(bool, usize)> = by_loc.iter().map(|x| (x.1, x.2)).collect();
-        let seq_time: Vec<(bool, usize)> = by_time.iter().map(|x| (x.1, x.2)).collect();
+        let mut seq_time: Vec<(bool, usize)> = by_time.iter().map(|x| (x.1, x.2)).collect();
+        if delayed && seq_loc != seq_time {
+            // try the merge by presentation time
+            let mut by_pts = locs.clone();
+            by_pts.sort_by_key(|&(_, isv, i, tick)| (if isv { v[i].pts } else { tick }, !isv, i));
+            let alt: Vec<(bool, usize)> = by_pts.iter().map(|x| (x.1, x.2)).collect();
+            if seq_loc == alt {
+                seq_time = alt;
+            }
+        }
         if seq_loc != seq_time {
             let k = seq_loc.iter().zip(seq_time.iter()).position(|(a, b)| a != b).unwrap_or(0);
             let equal_ts = by_time.windows(2).any(|w| w[0].3 == w[1].3 && w[0].1 != w[1].1);
